@@ -78,37 +78,47 @@ theorem checkSym_recOk (d : Nat) (buf : ByteArray) (o : Nat) (st : SymSt) (r : T
 
 /-! ## the symbol loop of `encodeChunk` -/
 
-/-- invariant of the symbol loop (trace `tr` without markers, chunk started at data offset `off`) -/
-structure CJ (d : Nat) (buf : ByteArray) (tr : Array TraceRec) (off : Nat) (s : ChunkLoopSt) : Prop where
+/-- invariant of the symbol loop (trace `tr` without markers, chunk started at data offset `off`), for chunk-closing limits `lim` -/
+structure CJ (lim : ChunkLimits) (d : Nat) (buf : ByteArray) (tr : Array TraceRec) (off : Nat) (s : ChunkLoopSt) : Prop where
   walk : WalkL d buf (tr.toList.drop s.2.2.1) s.2.1
   pos : s.1.uncompSize = s.2.1
   ra : s.2.2.2.2.1 = 0
   ok : OutOk2 s.1.rc
-  tb : T s.1.rc ≤ 61494
-  usz : s.2.1 - off ≤ 2097152
+  tb : T s.1.rc ≤ lim.compLimit + 55
+  usz : s.2.1 - off ≤ lim.target
   ge : off ≤ s.2.1
   idx : s.2.2.1 ≤ tr.size
   prog : off < s.2.1 ∨ (s.1.rc = Enc.init ∧ s.2.1 = off ∧ s.2.2.1 < tr.size ∧ 0 < s.2.2.2.2.2)
 
 theorem chunkFull_init : chunkFull 0 Enc.init = false := by decide
 
-theorem chunkBody_total (p : Props) (d : Nat) (buf : ByteArray) (tr : Array TraceRec) (off : Nat) (s : ChunkLoopSt)
-    (h : CJ d buf tr off s) :
-    (∃ s', chunkBody d buf 0 tr tr.size p off () s = .ok (.yield s') ∧ CJ d buf tr off s' ∧ s'.2.2.2.2.2 < s.2.2.2.2.2) ∨
-    (∃ s', chunkBody d buf 0 tr tr.size p off () s = .ok (.done s') ∧ CJ d buf tr off s' ∧ off < s'.2.1) := by
-  unfold chunkBody
+theorem chunkFullL_init (lim : ChunkLimits) (hlim : lim.Ok) : chunkFullL lim 0 Enc.init = false := by
+  obtain ⟨h1, _, h3, _⟩ := hlim
+  simp only [MATCH_LEN_MAX] at h1
+  simp only [chunkFullL, Enc.init, Enc.pending, MATCH_LEN_MAX, Bool.or_eq_false_iff, decide_eq_false_iff_not]
+  refine ⟨by omega, ?_⟩
+  exact decide_eq_false (by omega)
+
+set_option maxRecDepth 4000 in
+theorem chunkBodyL_total (lim : ChunkLimits) (hlim : lim.Ok) (p : Props) (d : Nat) (buf : ByteArray) (tr : Array TraceRec) (off : Nat) (s : ChunkLoopSt)
+    (h : CJ lim d buf tr off s) :
+    (∃ s', chunkBodyL lim d buf 0 tr tr.size p off () s = .ok (.yield s') ∧ CJ lim d buf tr off s' ∧ s'.2.2.2.2.2 < s.2.2.2.2.2) ∨
+    (∃ s', chunkBodyL lim d buf 0 tr tr.size p off () s = .ok (.done s') ∧ CJ lim d buf tr off s' ∧ off < s'.2.1) := by
+  obtain ⟨hl1, hl2, hl3, hl4⟩ := hlim
+  simp only [MATCH_LEN_MAX, LZMA2_UNCOMPRESSED_MAX, LZMA2_CHUNK_MAX] at hl1 hl2 hl4
+  unfold chunkBodyL
   by_cases hfuel : s.2.2.2.2.2 > 0
   · rw [if_pos hfuel]
-    by_cases hfull : chunkFull (s.2.1 - off) s.1.rc = true
+    by_cases hfull : chunkFullL lim (s.2.1 - off) s.1.rc = true
     · rw [if_pos hfull]
       right
       refine ⟨_, rfl, ⟨h.walk, h.pos, h.ra, h.ok, h.tb, h.usz, h.ge, h.idx, ?_⟩, ?_⟩
       · rcases h.prog with hp | ⟨hrc, ho, _, _⟩
         · exact Or.inl hp
-        · rw [hrc, ho, Nat.sub_self, chunkFull_init] at hfull; cases hfull
+        · rw [hrc, ho, Nat.sub_self, chunkFullL_init lim ⟨hl1, hl2, hl3, hl4⟩] at hfull; cases hfull
       · rcases h.prog with hp | ⟨hrc, ho, _, _⟩
         · exact hp
-        · rw [hrc, ho, Nat.sub_self, chunkFull_init] at hfull; cases hfull
+        · rw [hrc, ho, Nat.sub_self, chunkFullL_init lim ⟨hl1, hl2, hl3, hl4⟩] at hfull; cases hfull
     rw [if_neg hfull]
     by_cases hseg : s.2.2.1 ≥ tr.size
     · rw [if_pos hseg]
@@ -132,13 +142,13 @@ theorem chunkBody_total (p : Props) (d : Nat) (buf : ByteArray) (tr : Array Trac
     left
     refine ⟨_, rfl, ?_, by show s.2.2.2.2.2 - 1 < s.2.2.2.2.2; omega⟩
     -- the chunk was not full before this symbol
-    have hnf : ¬ (s.2.1 - off ≥ LZMA2_UNCOMPRESSED_MAX - MATCH_LEN_MAX) ∧
-        ¬ (s.1.rc.outTotal + s.1.rc.pending ≥ LZMA2_CHUNK_MAX - LOOP_INPUT_MAX) := by
-      unfold chunkFull at hfull
+    have hnf : ¬ (s.2.1 - off ≥ lim.target - MATCH_LEN_MAX) ∧
+        ¬ (s.1.rc.outTotal + s.1.rc.pending ≥ lim.compLimit) := by
+      unfold chunkFullL at hfull
       simp only [Bool.or_eq_true, decide_eq_true_eq, not_or] at hfull
       exact hfull
     rw [total_pending h.ok] at hnf
-    simp only [LZMA2_UNCOMPRESSED_MAX, MATCH_LEN_MAX, LZMA2_CHUNK_MAX, LOOP_INPUT_MAX, OPTS] at hnf
+    simp only [MATCH_LEN_MAX] at hnf
     have hlen := symOps_length p s.1.st s.1.uncompSize prev mb sym hsym
     have hrcnew : ∀ ops : List Op, (s.1.encode ops).rc = (encOps s.1.probs s.1.rc ops).2 := fun _ => rfl
     obtain ⟨hT, _⟩ := T_encOps (symOps p s.1.st s.1.uncompSize prev mb sym).1 s.1.probs s.1.rc h.ok.2
@@ -151,9 +161,9 @@ theorem chunkBody_total (p : Props) (d : Nat) (buf : ByteArray) (tr : Array Trac
       rw [encode_uncomp, h.pos]
     · show OutOk2 (s.1.encode _).rc
       rw [hrcnew]; exact outOk2_encOps _ _ _ h.ok
-    · show T (s.1.encode _).rc ≤ 61494
+    · show T (s.1.encode _).rc ≤ lim.compLimit + 55
       rw [hrcnew]; omega
-    · show s.2.1 + _ - off ≤ 2097152
+    · show s.2.1 + _ - off ≤ lim.target
       omega
     · show off ≤ s.2.1 + _
       have := h.ge; omega
@@ -181,8 +191,8 @@ structure ChunkRes (d : Nat) (buf : ByteArray) (tr : Array TraceRec) (off : Nat)
   idx : x.2.2.1 ≤ tr.size
   adv : off < x.2.1
 
-theorem chunkTail_total (d : Nat) (buf : ByteArray) (tr : Array TraceRec) (c : L2Enc) (off : Nat) (s : ChunkLoopSt)
-    (h : CJ d buf tr off s) (hadv : off < s.2.1) :
+theorem chunkTail_total (lim : ChunkLimits) (hlim : lim.Ok) (d : Nat) (buf : ByteArray) (tr : Array TraceRec) (c : L2Enc) (off : Nat)
+    (s : ChunkLoopSt) (h : CJ lim d buf tr off s) (hadv : off < s.2.1) :
     ∃ x, chunkTail buf 0 c off true s = .ok x ∧ ChunkRes d buf tr off x := by
   have hsz := WalkL_le h.walk
   have hcs : s.1.flush.2.1 = (encFlush s.1.rc).outTotal := rfl
@@ -191,6 +201,8 @@ theorem chunkTail_total (d : Nat) (buf : ByteArray) (tr : Array TraceRec) (c : L
   have hra := h.ra
   have hge := h.ge
   have husz := h.usz
+  obtain ⟨hl1, hl2, hl3, hl4⟩ := hlim
+  simp only [MATCH_LEN_MAX, LZMA2_UNCOMPRESSED_MAX, LZMA2_CHUNK_MAX] at hl1 hl2 hl4
   unfold chunkTail
   by_cases hu : s.1.flush.2.1 ≥ s.2.1 - off
   · rw [if_pos hu, hra]
